@@ -2,7 +2,7 @@ import Rustic.Model.CommandTable
 /- Lemmas for C15: a conforming command on an append-only repository keeps every protected file. -/
 namespace Rustic.CommandTable
 
-theorem run_appendOnly_no_protected_removal (cmd : Cmd) (ops : List Op) (h : run true cmd = .runs ops) :
+theorem run_appendOnly_no_protected_removal (hc : Bool) (cmd : Cmd) (ops : List Op) (h : run hc true cmd = .runs ops) :
     ∀ op ∈ ops, op.isProtectedRemoval = false := by
   have fin : ∀ (l : List Op), l.all (fun o => !o.isProtectedRemoval) = true → Outcome.runs l = .runs ops →
       ∀ op ∈ ops, op.isProtectedRemoval = false := by
@@ -29,7 +29,11 @@ theorem run_appendOnly_no_protected_removal (cmd : Cmd) (ops : List Op) (h : run
   | deleteKey => exact fin _ (by decide) h
   | copyInto => exact fin _ (by decide) h
   | mergeSnapshots => exact fin _ (by decide) h
-  | repairHotcold d => simp [run] at h
+  | repairHotcold d => cases hc <;> cases d <;> first | exact fin _ (by decide) h | simp [run] at h
+  | prepareRestore d => exact fin _ (by decide) h
+  | init => simp [run] at h
+  | initWithConfig b => exact fin _ (by decide) h
+  | initHot => cases hc <;> exact fin _ (by decide) h
   | readOnly => exact fin _ (by decide) h
 
 theorem applyOp_keeps (files : List File) (f : File) (o : ConcreteOp) (hf : f ∈ files)
@@ -66,7 +70,7 @@ theorem step_keeps (s : State) (e : Exec) (hao : s.appendOnly = true) (hc : conf
   apply foldl_applyOp_keeps _ _ _ hf hp
   intro o ho
   simp only [conforms, hao] at hc
-  cases hr : run true e.cmd with
+  cases hr : run s.hotCold true e.cmd with
   | refused err =>
     simp only [hr, List.isEmpty_iff] at hc
     simp [hc] at ho
@@ -74,7 +78,7 @@ theorem step_keeps (s : State) (e : Exec) (hao : s.appendOnly = true) (hc : conf
     simp only [hr, List.all_eq_true] at hc
     have hin := hc o ho
     have hmem : o.kind ∈ allowed := by simpa using hin
-    exact run_appendOnly_no_protected_removal e.cmd allowed hr _ hmem
+    exact run_appendOnly_no_protected_removal s.hotCold e.cmd allowed hr _ hmem
 
 /-- every command of the history conforms to the table and the repository is append-only before each. -/
 def AllAppendOnly (s : State) : List Exec → Prop
